@@ -234,6 +234,7 @@ def run(tier, seed):
                                  {"config": job["config"], "form": job["form"], "behaviour": beh[:bad["k"] + 1], "mismatch": mm})
     ck.cov["traces_validated_against_impl"] = sum(len(j["behaviours"]) for j in jobs)
     ck.notes["orbit_history_steps"] = nsteps
+    orbit_triples(ck, rng, tier, seed)
     for d in detail[:3] + detail[-2:]:
         ck.sample(d)
     ck.cov["rule"] = ("cases: (helper, implementation, mass pair) monomial measurements; (inverse pair, implementation, masses) round-trip batches of "
@@ -241,6 +242,45 @@ def run(tier, seed):
     ck.assumptions += ["monomial exponent measured on powers of two 2^-54..2^54; constants identified against the numeric generator candidates listed in the harness",
                        "round-trip and twin tolerance 256 ulp (5.7e-14 relative): observed worst on the unchanged tree is ~10 ulp (x**(1/3) vs cbrt at |ln x| ~ 100); every constant or exponent error is > 1e-6"]
     return ck.finish()
+
+
+def orbit_triples(ck, rng, tier, seed):
+    """specs/OrbitTriple.tla: moon and stellar orbit triples of a star / non-stellar host / moon system."""
+    import subprocess
+    from . import c13
+    from .. import tlaval
+    from ..core import PY, VERIF
+    r = run_tlc("OrbitTriple", "OrbitTriple.cfg", coverage=True, timeout=300)
+    ck.add_tlc(r, "OrbitTriple complete graph")
+    st = lambda s: {"moon": s["moon"]["a"], "stellar": s["stellar"]["a"]}
+    walks = c13.graph_walks(ck, "OrbitTriple", "OrbitTriple.cfg", st, rng, 10 ** 9, "OrbitTriple")
+    wd = scratch("c17orb")
+    jobs = []
+    for form in ("scalar", "array", "inplace"):
+        p = os.path.join(wd, "orb_%s.json" % form)
+        json.dump({"form": form, "behaviours": walks}, open(p, "w"))
+        env = dict(os.environ, PYTHONPATH=VERIF, PYTHONHASHSEED="0", NUMBA_NUM_THREADS="1", NUMBA_CACHE_DIR=core.private_numba_cache(form))
+        jobs.append((form, p, subprocess.Popen([PY, "-m", "harness.orbit_driver", p], cwd=VERIF, env=env, stdin=subprocess.DEVNULL,
+                                               stdout=open(p + ".log", "w"), stderr=subprocess.STDOUT)))
+    total = 0
+    for form, p, pr in jobs:
+        pr.wait(timeout=1800)
+        if pr.returncode != 0 or not os.path.exists(p + ".out.json"):
+            raise MachineryError("orbit_driver failed: %s" % open(p + ".log").read()[-1200:])
+        res = json.load(open(p + ".out.json"))["results"]
+        for beh, rb in zip(walks, res):
+            total += rb["steps"]
+            for stp in beh[:rb["steps"]]:
+                ck.case(("orbit-triple", form, stp[0], tuple(map(str, stp[1])), json.dumps(stp[2], sort_keys=True)), stp[0] != "Init")
+            if rb["bad"]:
+                b = rb["bad"]
+                m = b["mismatch"][0]
+                ck.violation({"clause": "orbit_kepler", "action": b["act"], "orbit": m["orbit"], "what": m["what"],
+                              "via": (b["params"][-1] if b["act"] == "StellarDistance" else None)},
+                             "form=%s after %d calls, %s%s: %s orbit: %s" % (form, b["k"], b["act"], b["params"], m["orbit"], m["detail"]),
+                             {"form": form, "behaviour": beh[:b["k"] + 1], "mismatch": b["mismatch"]})
+    ck.notes["orbit_triple_steps"] = total
+    ck.cov["traces_validated_against_impl"] += 3 * len(walks)
 
 
 def replay(path):
